@@ -348,6 +348,75 @@ def judge_pairs(ctx, results, broken):
         ctx.violation(sig, msg, harness="c19-pairs", args=[json.dumps({"kind": "pairs", "pairs": ps, "cfgs": [c]})])
 
 
+# ---- U5: instantiation TUs ---------------------------------------------------------------------------------------------
+
+def inst_tu_text(header, entries):
+    from instantiations import INST
+    spec = INST[header]
+    lines = ["// generated by checks/C19/check.py from instantiations.py: header under test first, then what the instantiation arguments need"]
+    lines.append("#include <xtl/%s>" % header)
+    for h in spec.get("also", ()):
+        lines.append("#include <xtl/%s>  // a user of the header under test includes this one as well" % h)
+    for h in spec.get("post", ()):
+        lines.append("#include <%s>" % h)
+    if spec.get("prelude"):
+        lines.append(spec["prelude"])
+    for e in entries:
+        lines.append("// ---- %s [%s]" % (e["id"], e["mode"]))
+        lines.append(e["code"])
+    lines.append("int main() { return 0; }")
+    return "\n".join(lines) + "\n"
+
+
+def build_inst_tu(tag, header, entries, cfg):
+    """Compile (-O0, real code generation) and link one instantiation TU. -> (ok, first diagnostic)."""
+    d = os.path.join(GENDIR, "inst", cfg_slug(cfg))
+    src = os.path.join(d, "%s-%s.cpp" % (header.replace(".", "_"), tag))
+    exe = src[:-4]
+    write_file(src, inst_tu_text(header, entries))
+    try:
+        rc, _, err = run_tool(cc_cmd(cfg, ["-O0", src, "-o", exe]), timeout=900)
+        return (rc == 0), ("" if rc == 0 else diag_with_member(err))
+    finally:
+        for f in (src, exe):
+            if os.path.exists(f):
+                os.unlink(f)
+
+
+def diag_with_member(err):
+    """first error line, prefixed with the member function the compiler was instantiating (when it says so)"""
+    member = member_of(err)
+    return ("[in %s] " % member if member else "") + first_error(err)
+
+
+def member_of(err):
+    """Best-effort name of the member whose instantiation failed, from g++ / clang++ / ld diagnostics; identifiers only."""
+    lines = err.splitlines()
+    idx = next((i for i, ln in enumerate(lines) if re.search(r"\berror\b|undefined reference", ln)), None)
+    if idx is None:
+        return None
+    m = re.search(r"undefined reference to [`']([^']+)'", lines[idx])
+    if m:
+        return re.sub(r"\(.*$", "", re.sub(r"<[^<>]*>", "", re.sub(r"<[^<>]*>", "", m.group(1)))).strip()
+    cands = []
+    for ln in lines[max(0, idx - 12):idx + 12]:
+        for pat in (r"In instantiation of '(?:constexpr |static |virtual |inline )*(?:[\w:<>,\s\*&]+? )?([\w:~]+(?:<[^']*?>)?::~?[\w]+|[\w:]+::operator[^\(]+)\(",
+                    r"in instantiation of member function '([^']+)'", r"in instantiation of function template specialization '([^']+)'",
+                    r"In member function '(?:[\w:<>,\s\*&]+? )?([\w:~<>, ]+::~?\w+)\(", r"In instantiation of '([^']+)'"):
+            m = re.search(pat, ln)
+            if m:
+                cands.append(m.group(1))
+                break
+    if not cands:
+        return None
+    name = cands[0]
+    for _ in range(4):
+        name = re.sub(r"<[^<>]*>", "", name)
+    name = re.sub(r"\(.*$", "", name).strip()
+    name = name.split(" ")[-1] if "operator" not in name else name[name.index(name.split("operator")[0].split(" ")[-1]):]
+    return name[:80] or None
+
+
 # ---- U3: link ------------------------------------------------------------------------------------------------------
 
 STD_AFTER = ["cfenv", "cstdio", "cstring", "functional", "limits", "string", "typeinfo", "utility"]
